@@ -39,6 +39,10 @@ def _ite(ip, args, kw, st, node):
 
 def _quant(ip, args, st, universal):
     lo, hi, fn = args
+    if not is_sym(lo) and not is_sym(hi) and hi - lo <= 12:
+        call = ast.parse('__f(__k)', mode='eval').body
+        parts = [mk_bool(ip.spec_bool(call, st, extra={'__f': fn, '__k': int(k)})) for k in range(int(lo), int(hi))]
+        return b_and(*parts) if universal else b_or(*parts)
     k = z3.Int(ip.ctx.fresh_name('q'))
     call = ast.parse('__f(__k)', mode='eval').body
     body = ip.spec_bool(call, st, extra={'__f': fn, '__k': SNum(k)})
